@@ -26,8 +26,8 @@ BUDGET = {"quick": 50, "thorough": 420}
 RULE = "index k -> one routing cell + request sequence. Non-trivial = proxy involved with TLS or a refusal/close; distinct = distinct cell tuple."
 ASSUMPTIONS = ["a garbage CONNECT reply is not a status-coded refusal: any urllib3 error with an empty origin log is accepted there"]
 REQUIRED_PROBES = {
-    "quick": ["tunnel_ok", "forward_ok", "forward_https_optin", "connect_refused_no_leak", "proxy_cert_bad_no_leak", "origin_cert_bad_no_request", "retunnelled_after_close", "ipv6_connect_bracketed", "tls_in_tls", "proxy_headers_kept_out_of_tunnel"],
-    "thorough": ["tunnel_ok", "forward_ok", "forward_https_optin", "connect_refused_no_leak", "proxy_cert_bad_no_leak", "origin_cert_bad_no_request", "retunnelled_after_close", "ipv6_connect_bracketed", "tls_in_tls", "proxy_headers_kept_out_of_tunnel"],
+    "quick": ["tunnel_ok", "forward_ok", "forward_https_optin", "optin_flag_without_effect", "connect_refused_no_leak", "proxy_cert_bad_no_leak", "origin_cert_bad_no_request", "retunnelled_after_close", "ipv6_connect_bracketed", "tls_in_tls", "proxy_headers_kept_out_of_tunnel"],
+    "thorough": ["tunnel_ok", "forward_ok", "forward_https_optin", "optin_flag_without_effect", "connect_refused_no_leak", "proxy_cert_bad_no_leak", "origin_cert_bad_no_request", "retunnelled_after_close", "ipv6_connect_bracketed", "tls_in_tls", "proxy_headers_kept_out_of_tunnel"],
 }
 
 DEST_HOSTS = {"name": "origin.test", "ip4": "10.0.0.5", "ip6": "[fd00::5]", "upper": "Origin.Test"}
@@ -40,7 +40,9 @@ def gen(rng):
     cell = {
         "proxy_scheme": ps,
         "dest_scheme": ds,
-        "forwarding": bool(ps == "https" and ds == "https" and rng.random() < 0.4),
+        # the opt-in flag is drawn for every (proxy scheme, destination scheme): it is documented to take effect only for an https
+        # destination behind an https proxy; anywhere else it must change nothing
+        "forwarding": rng.random() < 0.4,
         "proxy_cert": "ok" if ps == "http" or rng.random() < 0.8 else "bad",
         "origin_cert": "ok" if rng.random() < 0.8 else rng.choice(["bad_issuer", "mismatch"]),
         "connect": rng.choice(["200", "200", "200", "403", "407", "502", "garbage", "eof"]),
@@ -68,7 +70,10 @@ def run(sc: dict) -> Result:
     host = DEST_HOSTS[c["host"]]
     port = c["port"]
     dport = port or (443 if ds == "https" else 80)
-    tunnel_expected = ds == "https" and not c["forwarding"]
+    fwd_applies = bool(c["forwarding"]) and ps == "https" and ds == "https"
+    if c["forwarding"] and not fwd_applies:
+        res.probes["optin_flag_without_effect"] += 1
+    tunnel_expected = ds == "https" and not fwd_applies
     connects = []
     if tunnel_expected:
         k = c["connect"]
@@ -144,7 +149,7 @@ def run(sc: dict) -> Result:
             res.probes["proxy_headers_kept_out_of_tunnel"] += 1
         # 2. routing form
         for q in at_proxy:
-            if ds == "https" and not c["forwarding"]:
+            if ds == "https" and not fwd_applies:
                 if q.method != "CONNECT":
                     res.bad("https_not_tunnelled", f"proxy received {q.method} {q.target} for an https destination without forwarding opt-in")
             else:
@@ -236,7 +241,7 @@ def run(sc: dict) -> Result:
                     res.bad("proxy_header_missing_on_forward", f"{missing}: {q.headers}")
             if all(o[0] == "ok" for o in outcomes) and len(at_proxy) == c["nreq"]:
                 res.probes["forward_ok"] += 1
-                if c["forwarding"]:
+                if fwd_applies:
                     res.probes["forward_https_optin"] += 1
         pm.clear()
         res.faults.update(w.faults_fired)
@@ -266,8 +271,6 @@ def shrinks(sc):
         if sc["cell"][k] != v:
             c = copy.deepcopy(sc)
             c["cell"][k] = v
-            if c["cell"]["forwarding"] and not (c["cell"]["proxy_scheme"] == "https" and c["cell"]["dest_scheme"] == "https"):
-                continue
             yield c
 
 
